@@ -162,7 +162,7 @@ func checkC09(r *mc.Report, thorough bool) {
 		depth = 6
 	}
 	r.Explore(mc.Config{Name: fmt.Sprintf("login-placements-d%d", depth), Prune: true, SplitDepth: 2,
-		Rule: fmt.Sprintf("explicit-state search over user placements: histories of %d writes over {root>G1, root>G2, G1>G2, root>U, G1>U, G2>U} x {live, deleted} (move, mirror, delete, re-add, delete/undelete containing groups); in every state: login with right/wrong password and for the default admin, compared with reachability of the root through non-deleted edges; issued token validates; node listing within the subtrees of the user's live placements", depth)},
+		Rule: fmt.Sprintf("explicit-state search over user placements: histories of %d writes over {root>G1, root>G2, G1>G2, root>U, G1>U, G2>U} x {live, deleted} (move, mirror, delete, re-add, delete/undelete containing groups); in every state: login with the right credentials, a wrong password, 15 near misses (case, blanks, prefix, longer, empty, another user's e-mail or password, SQL wildcards) and for the default admin, compared with reachability of the root through non-deleted edges; issued token validates; node listing within the subtrees of the user's live placements", depth)},
 		c09LoginBody(depth))
 	sh.CleanupTemplate()
 	r.Assume("HTTP handler driven through ServeHTTP (api.NewV1Handler with the store's authorizer and an auth token); header values are passed verbatim")
@@ -419,6 +419,13 @@ func c09LoginBody(depth int) mc.Body {
 			}
 			if nodes, _ := client.UserCheck(inst.Nc, u.Email, "wrong"); len(nodes) > 0 {
 				return &mc.Outcome{Violation: "login with a wrong password returned nodes in state " + key(), Key: "login-wrong-password"}
+			}
+			// near misses: the e-mail and the password must match exactly
+			for _, cr := range map[bool][][2]string{false: nil, true: {{u.Email, ""}, {u.Email, "PW"}, {u.Email, "pw "}, {u.Email, " pw"}, {u.Email, "p"}, {u.Email, "pww"},
+				{"U@X.COM", u.Pass}, {"u@x.com ", u.Pass}, {" u@x.com", u.Pass}, {"u@x.co", u.Pass}, {"", u.Pass}, {"admin@admin.com", u.Pass}, {u.Email, "admin"}, {"%", "%"}, {"u@x.com' OR '1'='1", u.Pass}}}[want] { // (only where the right credentials succeed)
+				if nodes, _ := client.UserCheck(inst.Nc, cr[0], cr[1]); len(nodes) > 0 {
+					return &mc.Outcome{Violation: fmt.Sprintf("login with e-mail %q and password %q (the user has %q / %q) returned nodes in state %s", cr[0], cr[1], u.Email, u.Pass, key()), Key: "login-near-miss-credentials"}
+				}
 			}
 			if nodes, _ := client.UserCheck(inst.Nc, "", ""); len(nodes) > 0 {
 				return &mc.Outcome{Violation: "login with empty credentials returned nodes in state " + key(), Key: "login-empty-credentials"}
